@@ -928,3 +928,241 @@ func ruleKEY8(c *Ctx) []Ob {
 	}
 	return o.list
 }
+
+// ---------------------------------------------------------------- KEY9
+
+// KEY9: within one encoder function every orderedcode.Append whose result can
+// be returned passes the same number of items. A container is encoded as
+// (type id, payload-as-string): the string item carries the terminator that
+// keeps encodings prefix-free, also when the payload is empty. A fast path for
+// the empty container that appends the type id alone produces a key that is a
+// bare prefix of every non-empty one.
+func ruleKEY9(c *Ctx) []Ob {
+	o := newObs(c, "KEY9")
+	n := 0
+	for _, fn := range c.LibFuncs {
+		if fn.Parent() != nil {
+			continue
+		}
+		type site struct {
+			call  *ssa.Call
+			items int
+		}
+		var sites []site
+		for _, b := range fn.Blocks {
+			for _, in := range b.Instrs {
+				call, ok := in.(*ssa.Call)
+				if !ok {
+					continue
+				}
+				g := staticCallee(call)
+				if g == nil || g.Pkg == nil || g.Pkg.Pkg.Path() != "github.com/google/orderedcode" || g.Name() != "Append" {
+					continue
+				}
+				items, ok := c.keys().sprintfArgs(call.Common().Args[1])
+				if !ok {
+					continue
+				}
+				// does the result reach a return of fn?
+				reaches := false
+				for _, ret := range returnsOf(fn) {
+					if rv, ok := returnedValue(ret, 0); ok {
+						for _, og := range origins(rv) {
+							if og == ssa.Value(call) {
+								reaches = true
+							}
+							if ex, ok := og.(*ssa.Extract); ok && ex.Tuple == ssa.Value(call) {
+								reaches = true
+							}
+						}
+					}
+				}
+				if reaches {
+					sites = append(sites, site{call, len(items)})
+				}
+			}
+		}
+		if len(sites) == 0 {
+			continue
+		}
+		n++
+		key := c.fname(fn) + "/orderedcode.Append item count"
+		bad := ""
+		for _, s := range sites[1:] {
+			if s.items != sites[0].items {
+				bad = fmt.Sprintf("%d item(s) at %s, %d at %s", sites[0].items, relPath(c, sites[0].call.Pos()), s.items, relPath(c, s.call.Pos()))
+			}
+		}
+		if bad != "" {
+			o.add(VIOLATED, key, relPath(c, fn.Pos()), "the encodings this function can return are built from different numbers of items (%s): one of the shapes lacks the terminated payload item, so its encoding is a bare prefix of the other's and keys stop being prefix-free / order-preserving", bad)
+		} else {
+			o.add(OK, key, relPath(c, fn.Pos()), "%d returning Append call(s), %d item(s) each", len(sites), sites[0].items)
+		}
+	}
+	if n == 0 {
+		o.add(UNDECIDED, "encoders", "-", "no orderedcode.Append call whose result is returned")
+	}
+	return o.list
+}
+
+// ---------------------------------------------------------------- KEY10
+
+// KEY10: what a prefix scan does with the entry under the cursor - deleting its
+// key, handing it (or a part of its key) to the caller's callback - happens
+// only after THAT entry's key passed the prefix test. A loop that acts first
+// and tests the next entry afterwards acts once on whatever the initial seek
+// landed on: with an empty range, the first key of the neighbouring range.
+func ruleKEY10(c *Ctx) []Ob {
+	o := newObs(c, "KEY10")
+	isItemKey := func(v ssa.Value) bool {
+		for _, og := range c.paramSources(v, 0) {
+			for _, x := range origins(og) {
+				_, f, n := fieldLoad(x)
+				if f == "Key" && n != nil && c.libNamedIs(n, "store", "Item") {
+					return true
+				}
+				// the whole item passed on
+				if n, ok := x.Type().(*types.Named); ok && c.libNamedIs(n, "store", "Item") {
+					if _, isCall := x.(*ssa.Extract); isCall {
+						return true
+					}
+				}
+				// parts of the key produced by a splitter helper
+				if ex, ok := x.(*ssa.Extract); ok {
+					if cl, ok := ex.Tuple.(*ssa.Call); ok {
+						for _, a := range cl.Common().Args {
+							for _, ao := range origins(a) {
+								if _, f2, n2 := fieldLoad(ao); f2 == "Key" && n2 != nil && c.libNamedIs(n2, "store", "Item") {
+									return true
+								}
+							}
+						}
+					}
+				}
+			}
+		}
+		return false
+	}
+	// is v (a bool) the outcome of a prefix test of a cursor key on all its sources?
+	var isPrefixTest func(v ssa.Value, depth int) bool
+	isPrefixTest = func(v ssa.Value, depth int) bool {
+		if depth > 4 {
+			return false
+		}
+		ogs := origins(v)
+		if len(ogs) == 0 {
+			return false
+		}
+		for _, og := range ogs {
+			if b, ok := constBool(og); ok && !b {
+				continue
+			}
+			switch x := og.(type) {
+			case *ssa.Call:
+				full := calleeFullName(x)
+				if (full == "bytes.HasPrefix" || full == "strings.HasPrefix") && isItemKey(x.Common().Args[0]) {
+					continue
+				}
+				if g := staticCallee(x); g != nil && c.IsLib(c.declared(g)) && c.declared(g).Signature.Results().Len() == 1 {
+					all := true
+					for _, ret := range returnsOf(c.declared(g)) {
+						if rv, ok := returnedValue(ret, 0); !ok || !isPrefixTest(rv, depth+1) {
+							all = false
+						}
+					}
+					if all {
+						continue
+					}
+				}
+				return false
+			case *ssa.Extract:
+				cl, ok := x.Tuple.(*ssa.Call)
+				if !ok {
+					return false
+				}
+				g := staticCallee(cl)
+				if g == nil || !c.IsLib(c.declared(g)) {
+					return false
+				}
+				all := true
+				for _, ret := range returnsOf(c.declared(g)) {
+					if rv, ok := returnedValue(ret, x.Index); !ok || !isPrefixTest(rv, depth+1) {
+						all = false
+					}
+				}
+				if !all {
+					return false
+				}
+			default:
+				return false
+			}
+		}
+		return true
+	}
+	n := 0
+	for _, fn := range c.LibFuncs {
+		if strings.HasPrefix(c.pkgRel(fn), "store") {
+			continue
+		}
+		hasCursor := false
+		allCalls(fn, func(ci ssa.CallInstruction) {
+			if c.isInvokeOf(ci, "store", "Cursor", "Item") {
+				hasCursor = true
+			}
+		})
+		if !hasCursor {
+			continue
+		}
+		guards := guardEdges(fn, func(cond ssa.Value, branch bool) bool {
+			neg := false
+			for {
+				if u, ok := cond.(*ssa.UnOp); ok && u.Op == token.NOT {
+					cond, neg = u.X, !neg
+					continue
+				}
+				break
+			}
+			return isPrefixTest(cond, 0) && branch != neg
+		})
+		k := 0
+		allCalls(fn, func(ci ssa.CallInstruction) {
+			call, ok := ci.(*ssa.Call)
+			if !ok {
+				return
+			}
+			what := ""
+			switch {
+			case c.isInvokeOf(call, "store", "Tx", "Delete") && isItemKey(call.Common().Args[0]):
+				what = "deletes the key under the cursor"
+			case !call.Common().IsInvoke() && staticCallee(call) == nil:
+				// a call through a function value: the scan's consumer
+				if _, isB := call.Common().Value.(*ssa.Builtin); isB {
+					return
+				}
+				for _, a := range call.Common().Args {
+					if isItemKey(a) {
+						what = "hands the entry under the cursor to the consumer"
+					}
+				}
+			}
+			if what == "" {
+				return
+			}
+			n++
+			k++
+			key := fmt.Sprintf("%s/%s", c.fname(fn), what)
+			if k > 1 {
+				key = fmt.Sprintf("%s #%d", key, k)
+			}
+			if guardedBy(fn, call.Block(), guards) {
+				o.add(OK, key, relPath(c, call.Pos()), "reached only after a prefix test of a cursor key succeeded")
+			} else {
+				o.add(VIOLATED, key, relPath(c, call.Pos()), "the scan %s on a path on which no prefix test of the cursor's key has succeeded: the entry the initial seek lands on is acted upon even if it lies outside the scanned range (with an empty range: the first key of another index, collection or of the catalog)", what)
+			}
+		})
+	}
+	if n == 0 {
+		o.add(UNDECIDED, "scans", "-", "no prefix scan acting on cursor keys found")
+	}
+	return o.list
+}
